@@ -120,12 +120,11 @@ where
                             this.state.mark_connected();
 
                             #[cfg(feature = "tracing")]
-                            if let Some(ref callback) = this.config.on_state_change {
-                                callback(
-                                    crate::state::ConnectionState::Reconnecting,
-                                    crate::state::ConnectionState::Connected,
-                                );
-                            }
+                            notify_state_change(
+                                this.config,
+                                crate::state::ConnectionState::Reconnecting,
+                                crate::state::ConnectionState::Connected,
+                            );
                             return Poll::Ready(Ok(response));
                         }
                         Poll::Ready(Err(error)) => {
@@ -139,12 +138,11 @@ where
                             this.state.mark_disconnected();
 
                             #[cfg(feature = "tracing")]
-                            if let Some(ref callback) = this.config.on_state_change {
-                                callback(
-                                    crate::state::ConnectionState::Connected,
-                                    crate::state::ConnectionState::Disconnected,
-                                );
-                            }
+                            notify_state_change(
+                                this.config,
+                                crate::state::ConnectionState::Connected,
+                                crate::state::ConnectionState::Disconnected,
+                            );
                             *this.attempt += 1;
 
                             // Store the error for potential use
@@ -168,17 +166,14 @@ where
                                 this.state.mark_reconnecting();
 
                                 #[cfg(feature = "tracing")]
-                                if let Some(ref callback) = this.config.on_state_change {
-                                    callback(
-                                        crate::state::ConnectionState::Disconnected,
-                                        crate::state::ConnectionState::Reconnecting,
-                                    );
-                                }
+                                notify_state_change(
+                                    this.config,
+                                    crate::state::ConnectionState::Disconnected,
+                                    crate::state::ConnectionState::Reconnecting,
+                                );
 
                                 #[cfg(feature = "tracing")]
-                                if let Some(ref callback) = this.config.on_reconnect {
-                                    callback(*this.attempt);
-                                }
+                                notify_reconnect(this.config, *this.attempt);
 
                                 this.phase.set(Phase::Sleeping(tokio::time::sleep(delay)));
                             } else {
@@ -228,6 +223,26 @@ where
                 }
             }
         }
+    }
+}
+
+/// Callbacks are observers only: a panicking callback must not change the outcome of the call.
+#[cfg(feature = "tracing")]
+fn notify_state_change(
+    config: &ReconnectConfig,
+    from: crate::state::ConnectionState,
+    to: crate::state::ConnectionState,
+) {
+    if let Some(ref callback) = config.on_state_change {
+        let _ = std::panic::catch_unwind(std::panic::AssertUnwindSafe(|| callback(from, to)));
+    }
+}
+
+/// See [`notify_state_change`].
+#[cfg(feature = "tracing")]
+fn notify_reconnect(config: &ReconnectConfig, attempt: u32) {
+    if let Some(ref callback) = config.on_reconnect {
+        let _ = std::panic::catch_unwind(std::panic::AssertUnwindSafe(|| callback(attempt)));
     }
 }
 
